@@ -95,31 +95,63 @@ def main():
         shutil.rmtree(wt, ignore_errors=True)
     meta["confirmed"] = bool(meta.get("builds") and meta["suite_with_change"] == "as baseline" and meta["demo_with_change"] == "fail" and meta["demo_without_change"] == "pass")
 
-    # ---- 4. our check against it, on /repo itself
-    rc, st = sh(["git", "-C", "/repo", "status", "--porcelain"])
-    if st.strip():
-        print("/repo is not clean; refusing to apply")
-        return 2
+    # ---- 4. our check against it: on /repo itself (default) or, with --scratch, on a scratch worktree through VERIF_REPO
     ran = []
-    try:
-        rc, out = sh(["git", "-C", "/repo", "apply", os.path.join(dest, "patch.diff")])
-        assert rc == 0, out
-        for tier in ("quick", "thorough"):
-            t0 = time.time()
-            rc, out = sh([os.path.join(VERIF, "check"), prop, tier], cwd=VERIF, env=dict(ENV, VERIF_OUT="/tmp/seedchk/out_" + name))
-            lines = [l for l in out.splitlines() if l.startswith(("VIOLATION", "  sig=", "INCONCLUSIVE", "KNOWN"))]
-            ran.append({"cmd": "./check %s %s" % (prop, tier), "exit": rc, "seconds": round(time.time() - t0, 1), "lines": [l[:400] for l in lines[:6]]})
-            if rc == 1:
-                break
-    finally:
-        sh(["git", "-C", "/repo", "checkout", "--", "."])
-        shutil.rmtree("/tmp/seedchk/out_" + name, ignore_errors=True)
-    meta["what_we_ran"] = ["git -C /repo apply patch.diff"] + ran + ["git -C /repo checkout -- ."]
+    scratch = "--scratch" in sys.argv
+    if scratch:
+        wt2 = "/tmp/seedchk/run_" + name
+        sh(["git", "-C", "/repo", "worktree", "remove", "--force", wt2])
+        shutil.rmtree(wt2, ignore_errors=True)
+        os.makedirs("/tmp/seedchk", exist_ok=True)
+        sh(["git", "-C", "/repo", "worktree", "add", "-q", "--detach", wt2, "HEAD"])
+        try:
+            rc, out = sh(["git", "apply", os.path.join(dest, "patch.diff")], cwd=wt2)
+            assert rc == 0, out
+            for tier in ("quick", "thorough"):
+                t0 = time.time()
+                rc, out = sh([os.path.join(VERIF, "check"), prop, tier], cwd=VERIF, env=dict(ENV, VERIF_REPO=wt2, VERIF_OUT="/tmp/seedchk/out_" + name))
+                lines = [l for l in out.splitlines() if l.startswith(("VIOLATION", "  sig=", "INCONCLUSIVE", "KNOWN"))]
+                ran.append({"cmd": "./check %s %s" % (prop, tier), "exit": rc, "seconds": round(time.time() - t0, 1), "lines": [l[:400] for l in lines[:6]]})
+                if rc == 1:
+                    break
+        finally:
+            sh(["git", "-C", "/repo", "worktree", "remove", "--force", wt2])
+            shutil.rmtree(wt2, ignore_errors=True)
+            shutil.rmtree("/tmp/seedchk/out_" + name, ignore_errors=True)
+        meta["what_we_ran"] = ["scratch worktree of /repo + git apply patch.diff; VERIF_REPO=<worktree>"] + ran + ["worktree removed"]
+    else:
+        rc, st = sh(["git", "-C", "/repo", "status", "--porcelain"])
+        if st.strip():
+            print("/repo is not clean; refusing to apply")
+            return 2
+        try:
+            rc, out = sh(["git", "-C", "/repo", "apply", os.path.join(dest, "patch.diff")])
+            assert rc == 0, out
+            for tier in ("quick", "thorough"):
+                t0 = time.time()
+                rc, out = sh([os.path.join(VERIF, "check"), prop, tier], cwd=VERIF, env=dict(ENV, VERIF_OUT="/tmp/seedchk/out_" + name))
+                lines = [l for l in out.splitlines() if l.startswith(("VIOLATION", "  sig=", "INCONCLUSIVE", "KNOWN"))]
+                ran.append({"cmd": "./check %s %s" % (prop, tier), "exit": rc, "seconds": round(time.time() - t0, 1), "lines": [l[:400] for l in lines[:6]]})
+                if rc == 1:
+                    break
+        finally:
+            sh(["git", "-C", "/repo", "checkout", "--", "."])
+            shutil.rmtree("/tmp/seedchk/out_" + name, ignore_errors=True)
+        meta["what_we_ran"] = ["git -C /repo apply patch.diff"] + ran + ["git -C /repo checkout -- ."]
     meta["detected"] = any(r["exit"] == 1 for r in ran)
     meta["detected_by"] = next((r["cmd"] for r in ran if r["exit"] == 1), None)
     sigs = [l.split()[0][4:] for r in ran for l in r["lines"] if l.startswith("  sig=")]
     meta["signatures"] = sigs
-    json.dump(meta, open(os.path.join(dest, "meta.json"), "w"), indent=1)
+    mp = os.path.join(dest, "meta.json")
+    if os.path.exists(mp):
+        try:
+            oldm = json.load(open(mp))
+            for k in ("evaluation_history", "needs_to_manifest"):
+                if k in oldm and k not in meta:
+                    meta[k] = oldm[k]
+        except Exception:
+            pass
+    json.dump(meta, open(mp, "w"), indent=1)
     print("%s %-28s confirmed=%s detected=%s by=%s sigs=%s" % (prop, name, meta["confirmed"], meta["detected"], meta["detected_by"], sigs[:2]))
     try:
         os.rmdir("/tmp/seedchk")
